@@ -217,7 +217,7 @@ Proof.
            rewrite EK in Hin. destruct Hin as [E|[]]. destruct k; [discriminate Hke|discriminate E].
         -- destruct tks as [|x [|y l]]; try discriminate EK.
            cbn [map] in EK. destruct x as [s'|]; [|discriminate EK]. cbn [strip_indent] in EK. inversion EK; subst s'.
-           exists s. split; [exact Hat|]. split; [exact Hsne|split; reflexivity].
+           exists s. split; [apply (RoundtripParse.atoms_plain_read _ _ _ Hpl Hat)|]. split; [exact Hsne|split; reflexivity].
       * (* element only *)
         assert (Hel : all_elems (EElem q1 a1 kk1 :: r)).
         { intros e He. rewrite forallb_forall in Hpk. specialize (Hpk e He). destruct e; [discriminate Hpk|eauto]. }
